@@ -346,7 +346,7 @@ func runFaultSweep(t *testing.T, spec kernel.Spec, prop string, idx int) *kernel
 	if spec.Params["router"] != "" {
 		router = spec.Params["router"]
 	}
-	kinds := []string{world.FaultError, world.FaultTimeout, world.FaultTorn, world.FaultCanceled}
+	kinds := c10Kinds
 	out := kernel.NewOutcome(spec)
 	out.StepIDs = []int{}
 	site := "router" + router + "/" + flow.name
@@ -451,7 +451,7 @@ func runFaultSweep(t *testing.T, spec kernel.Spec, prop string, idx int) *kernel
 			o.Fault(kind)
 			desc := fmt.Sprintf("%s router %s: call %d (%s) answered %s", flow.name, router, k, methodAt(w, r, k), kind)
 			o.Logf("%s -> %d", desc, statusOf(r))
-			judge(o, site+"/"+methodAt(w, r, k), k*4+kindIndex(kind), desc, r, redirect, flow.name == "introspect")
+			judge(o, site+"/"+methodAt(w, r, k), k*8+kindIndex(kind), desc, r, redirect, flow.name == "introspect")
 		})
 		return
 	}
@@ -470,7 +470,7 @@ func runFaultSweep(t *testing.T, spec kernel.Spec, prop string, idx int) *kernel
 	out.Logf("pilot %s router %s: %d storage calls: %v", flow.name, router, n, methods)
 	for k := 1; k <= n; k++ {
 		for ki, kind := range kinds {
-			id := k*4 + ki
+			id := k*8 + ki
 			if spec.KeepSet && !containsInt(spec.Keep, id) {
 				continue
 			}
@@ -580,14 +580,15 @@ func statusOf(r *world.Resp) int {
 	return r.Status
 }
 
+// c10Kinds: the ways a storage call fails in the single-fault sweep: a plain error, a stall until the deadline, a torn
+// answer, a cancellation, the storage's reused OAuth error value, and an OAuth error wrapped by a layer above it.
+var c10Kinds = []string{world.FaultError, world.FaultTimeout, world.FaultTorn, world.FaultCanceled, world.FaultSentinel, world.FaultWrapped}
+
 func kindIndex(kind string) int {
-	switch kind {
-	case world.FaultError:
-		return 0
-	case world.FaultTimeout:
-		return 1
-	case world.FaultCanceled:
-		return 3
+	for i, k := range c10Kinds {
+		if k == kind {
+			return i
+		}
 	}
 	return 2
 }
